@@ -4,6 +4,17 @@ import Driver.C03
 namespace Driver.C04
 open Mtv Mtv.Envelope Mtv.Envelope.Exec Driver
 
+/-- `c04.session`: (key, packet, expectation)* over one transport. In the model `ReadMsg` is a function of
+the session's key at the time of the call and of the packet (`route`); a transport has no state of its own
+besides the connection, so a session answers what each packet answers on its own under that step's key. -/
+def sessionSteps : List String → Option (List String)
+  | [] => some []
+  | key :: pkt :: _expect :: rest =>
+    match parseTok? key, parseTok? pkt, sessionSteps rest with
+    | some key, some pkt, some r => some (showRouted (route prims key pkt) :: r)
+    | _, _, _ => none
+  | _ => none
+
 /-- operations of property C04 (see harness/cmd/vh/c04.go). The last token of each operation is the
 generator's expectation for the Go-side oracle; the model does not look at it. -/
 def handle : List String → String
@@ -22,6 +33,11 @@ def handle : List String → String
     match parseTok? key, parseTok? pkt with
     | some key, some pkt => showRouted (route prims key pkt)
     | _, _ => "bad-op"
+  -- several packets through ONE transport while the session's key changes
+  | "c04.session" :: steps =>
+    match sessionSteps steps with
+    | some (r :: rs) => " ; ".intercalate (r :: rs)
+    | _ => "bad-op"
   -- DeserializeUnencrypted on an arbitrary packet
   | ["c04.udeser", d, _expect] =>
     match parseTok? d with
